@@ -125,6 +125,9 @@ type KDC struct {
 	TaskID  func() int
 	logs    [512]taskLog
 	Peers   map[string]*KDC // other realms (for cross-realm key agreement)
+	// PlainHook is applied to the plaintext of a reply's encrypted part when the perturbation
+	// "enc-plain-hook" is asked for.
+	PlainHook func(kind string, plain []byte) []byte
 }
 
 func New(realm string, seed uint64, pol Policy) *KDC {
@@ -541,6 +544,17 @@ func (k *KDC) handleAS(req *rk.KDCReq, rec *ReqRecord, l *taskLog, pt []Perturb)
 			case "edata-unknown-etype":
 				s := "salt"
 				edata = rk.EncPADataSeq([]rk.PAData{{Type: rk.PAETypeInfo2, Value: rk.EncETypeInfo2([]rk.ETypeInfo2Entry{{Etype: 99, Salt: &s}})}})
+			case "edata-s2k-iter":
+				// the hint for the first requested etype carries this PBKDF2 iteration count (4 bytes,
+				// big-endian): 0, or a count that would take a client hours
+				s := cp.salt(k.Realm)
+				et := int32(18)
+				if len(req.Etypes) > 0 {
+					et = req.Etypes[0]
+				}
+				it := uint32(p.Arg)
+				edata = rk.EncPADataSeq([]rk.PAData{{Type: rk.PAETypeInfo2, Value: rk.EncETypeInfo2([]rk.ETypeInfo2Entry{{Etype: et, Salt: &s,
+					S2KParams: []byte{byte(it >> 24), byte(it >> 16), byte(it >> 8), byte(it)}}})}})
 			case "edata-prefix":
 				if int(p.Arg) < len(edata) {
 					edata = edata[:p.Arg]
@@ -733,6 +747,11 @@ func (k *KDC) issue(a issueArgs) []byte {
 			plain = ep.EncBytes(encTag)
 		case "enc-plain-garbage":
 			plain = a.r.Bytes(int(pt.Arg))
+		case "enc-plain-hook":
+			// a Byzantine KDC with valid keys: the engine rewrites the plaintext before it is sealed
+			if k.PlainHook != nil {
+				plain = k.PlainHook(a.kind, plain)
+			}
 		case "enc-plain-prefix":
 			if int(pt.Arg) < len(plain) {
 				plain = plain[:pt.Arg]
